@@ -38,6 +38,26 @@ CHECKS = {
             'DESIGN.md §4 C13',
             'Trusted: nightly rustc MIR; operator tables (C02). The recursive descent of insert_back_prioritized is covered inductively. Not decided: that every ill-formed token sequence is rejected.',
             'per-kind abstract interpretation (feasible-kind analysis) + dominance / must-pass-through rules'),
+    'C04': ('other',
+            'Clause level: effect table of all 11 HashMapContext methods on its three fields; set_value decided exhaustively over lookup hit/miss x type of existing value x type of new value (37 cases): same type overwrites regardless of content, different type returns the matching expected-type error with nothing written, miss inserts; ValueType::from / expected_type tables; the nine assignment arms of eval_mut read X, apply exactly the matching operator to (old X, e), write the result, for each failure world; clones share nothing (derived Clone, type walk). HashMap itself is trusted std.',
+            'DESIGN.md §4 C04',
+            'Trusted: nightly rustc MIR; std HashMap semantics. Not decided: what right-hand sides evaluate to (C03); histories are covered only as far as each single operation is decided for every abstract state.',
+            'abstract interpretation of context methods and assignment arms over exhaustive type case splits; type walk'),
+    'C08': ('other',
+            'Structural: both recursive evaluators evaluate children in one forward pass over slice::Iter of self.children(), exactly one recursive call site under `?` (first error returned, nothing evaluated after it), the operator is not consulted before the loop exit edge (no short-circuit) and is applied once to the collected arguments; op-assign read-compute-write order by dominance; the mutable path neither clones nor restores the context.',
+            'DESIGN.md §4 C08',
+            'Trusted: nightly rustc MIR; std slice::Iter order and Vec::push. Accepted-idiom caveat: only the for-loop shape is recognised; another (equivalent) iteration idiom is reported as unrecognised.',
+            'path / dominance / must-pass-through rules over evaluator MIR'),
+    'C09': ('other',
+            'Structural: the FunctionIdentifier arm is abstractly interpreted for every context result (Ok, each of the error variants) x builtin switch x table hit: the builtin table is consulted exactly when the context reported FunctionIdentifierNotFound and builtins are enabled, with the same identifier and argument; otherwise the context result is returned unchanged. builtin_function has one call site. Policy methods of the three contexts, namespaces of HashMapContext, the identifier classification in the tree builder (assignment => write, left-sided value => function, else read) and name agreement with the documentation are decided.',
+            'DESIGN.md §4 C09',
+            'Trusted: nightly rustc MIR; std HashMap. Not decided: argument values of the call forms (tree shape: C02/C05).',
+            'case-split abstract interpretation + who-may-call + table agreement'),
+    'C11': ('other',
+            'Structural: immutable entry points take &C and the provided contexts contain no interior mutability (type walk, forbid(unsafe_code)); Operator::eval answers the nine assignment variants with the constant ContextNotMutable; eval_mut forwards the other 23 variants unchanged; context mutators are called only from the assignment arms; the two recursive evaluators are CFG-isomorphic up to _mut names; compile-fail witnesses show the empty contexts cannot be evaluated mutably.',
+            'DESIGN.md §4 C11',
+            'Trusted: rustc type/borrow checker, nightly MIR. User contexts with interior mutability are outside the provided-context claim.',
+            'type facts + per-variant abstract interpretation + sibling CFG isomorphism + compile-fail witnesses'),
 }
 
 PENDING_REASON = 'check not yet built in this revision of the framework (design in DESIGN.md); not claimed until its rules run'
